@@ -86,6 +86,8 @@ Definition run (t : tree) : tree :=
   TL [ of_pairs (if 0 <? power_cap then no_more_than_percent vals power_cap else []);
        of_pairs p; of_pairs np;
        of_pairs (cap_validator_set top_n set_cap (p ++ np));
+       of_pairs (shape prio top_n set_cap power_cap vals);
+       (* sixth observation: the real ComputeNextValidators on all-eligible validators = the composition *)
        of_pairs (shape prio top_n set_cap power_cap vals) ].
 
 (* ---- monitor: the clauses of property C04 evaluated on an arbitrary (implementation) output.
@@ -124,6 +126,14 @@ Definition mon_set_cap (prio : list Z) (top_n set_cap : Z) (eligible out : list 
    then (if Nat.eqb (length out) (length eligible) then [] else [10])
    else (if Z.of_nat (length out) =? set_cap then [] else [10])).
 
+(* the power-cap clauses for the end-to-end result of ComputeNextValidators: the power cap must hold relative to
+   the validators that are actually in the final set (the set-capped list), clause numbers offset by 10 *)
+Definition mon_composed (prio : list Z) (top_n set_cap power_cap : Z) (vals out : list val) : list Z :=
+  let members := filter (fun v => existsb (fun o => vid o =? vid v) out) vals in
+  map (fun c => c + 10)
+      (mon_set_cap prio top_n set_cap vals (map (fun o => (vid o, lookup_pow vals (vid o))) out) ++
+       (if 0 <? power_cap then mon_power_cap members power_cap out else [])).
+
 (* mon input impl_output: impl_output has the shape produced by [run] *)
 Definition mon (t o : tree) : tree :=
   let vals := to_pairs (tnth 0 t) in
@@ -132,4 +142,5 @@ Definition mon (t o : tree) : tree :=
   let set_cap := tz (tnth 3 t) in
   let power_cap := tz (tnth 4 t) in
   of_zs ((if 0 <? power_cap then mon_power_cap vals power_cap (to_pairs (tnth 0 o)) else []) ++
-         mon_set_cap prio top_n set_cap vals (to_pairs (tnth 3 o))).
+         mon_set_cap prio top_n set_cap vals (to_pairs (tnth 3 o)) ++
+         mon_composed prio top_n set_cap power_cap vals (to_pairs (tnth 5 o))).
